@@ -66,6 +66,15 @@ def cases(draw):
             if isinstance(v, str) and v.isascii():
                 c["inputs"].append(dict(base, **{f: M.enc(v.encode("ascii"))}))
                 c["inputs"].append(dict(base, **{f: M.enc(bytearray(v.encode("ascii")))}))
+        # ONE plain object (equal only to itself) in several fields at once, and a value that cannot be copied (a lock): the
+        # evaluator must look at the very objects it was given, as the generated function does
+        if len(base) >= 2:
+            fs = sorted(base)
+            c["inputs"].append(dict(base, **{fs[0]: {"t": "handle", "v": 1}, fs[1]: {"t": "handle", "v": 1}}))
+            c["inputs"].append(dict(base, **{fs[0]: {"t": "handle", "v": 1}, fs[1]: {"t": "list", "v": [{"t": "handle", "v": 1}, {"t": "handle", "v": 2}]}}))
+        if base:
+            c["inputs"].append(dict(base, **{sorted(base)[-1]: {"t": "lock"}}))
+            c["inputs"].append(dict(base, zz_unrelated={"t": "lock"}))
         # a value whose every use raises an exception without arguments, in any one field
         if base:
             f = draw(st.sampled_from(sorted(base)))
@@ -134,6 +143,15 @@ def judge(case):
                     viol.append("%s layout: generated function: %s | inputs=%r | %s" % (layout, msg, common.short_env(env), text))
             if not same:
                 viol.append("%s layout: generated function gave %r, evaluator gave %r | inputs=%r | %s" % (layout, b, a, common.short_env(env), text))
+    # rendering is repeatable: one generator asked twice, and another generator on the same parsed AST, emit the same text
+    try:
+        _, same = common.rendered_again(text, prog["name"])
+        for what, ok in same.items():
+            if not ok:
+                viol.append("code generation is not repeatable (%s is false) | %s" % (what, text))
+    except Exception as e:
+        if not viol:
+            viol.append("rendering the same AST again failed: %s: %s | %s" % (type(e).__name__, str(e)[:200], text))
     nt = prog["body"]["k"] == "if" and (prog["salt"] is not None or bool(prog["splitters"]))
     return {"viol": viol[:5], "nontrivial": nt, "tags": tags, "key": text, "sample": {"text": text[:300]}}
 
